@@ -503,13 +503,14 @@ fn check_homonym_crates(renames: &'static str, link: &'static str, lang: Lang, p
             "{extra_use}#[typeshare]\n{r}pub struct Account {{ pub id_{tag}: u32 }}\n\n#[typeshare]\npub struct Ledger{tag} {{ pub main: Account, pub all: Vec<Account>, pub maybe: Option<Account>, pub by_name: HashMap<String, Account>,{extra_field} }}\n\n#[typeshare]\n#[serde(tag = \"type\", content = \"content\")]\npub enum Event{tag} {{ Opened(Account), Moved {{ from: Account, to: Box<Account> }}, Closed }}\n\n#[typeshare]\npub type Accounts{tag} = Vec<Account>;\n"
         )
     };
+    // (the linked second crate also refers to a type of the first that is emitted under another name: `Coin`, renamed `Token`)
     let (use2, field2) = match link {
-        "second-imports-first-under-alias-free-use" => ("use alpha::LedgerA;\n".to_string(), " pub other: LedgerA".to_string()),
-        "second-refers-by-qualified-path" => (String::new(), " pub other: alpha::LedgerA".to_string()),
+        "second-imports-first-under-alias-free-use" => ("use alpha::LedgerA;\nuse alpha::Coin;\n".to_string(), " pub other: LedgerA, pub coin: Coin, pub coins: Vec<Coin>".to_string()),
+        "second-refers-by-qualified-path" => (String::new(), " pub other: alpha::LedgerA, pub coin: alpha::Coin, pub coins: Option<alpha::Coin>".to_string()),
         _ => (String::new(), String::new()),
     };
     let files = vec![
-        crate::pipeline::SrcFile { crate_name: "alpha".into(), path: "alpha/src/lib.rs".into(), source: krate("A", r1, "", "") },
+        crate::pipeline::SrcFile { crate_name: "alpha".into(), path: "alpha/src/lib.rs".into(), source: format!("{}\n#[typeshare]\n#[serde(rename = \"Token\")]\npub struct Coin {{ pub c: u32 }}\n", krate("A", r1, "", "")) },
         crate::pipeline::SrcFile { crate_name: "beta".into(), path: "beta/src/lib.rs".into(), source: krate("B", r2, &use2, &field2) },
     ];
     let mut cfg = if prefixed { Cfg::prefixed() } else { Cfg::plain() };
@@ -537,15 +538,17 @@ fn check_homonym_crates(renames: &'static str, link: &'static str, lang: Lang, p
         for (_, imported) in &of.imports {
             visible.extend(imported.iter().cloned());
         }
+        let defined_here: BTreeSet<&str> = names.defined.iter().map(|d| d.0.as_str()).collect();
         for (n, site, owner) in &names.referenced {
             acc.judgements += 1;
-            if visible.contains(n) {
+            let other_defines = outs.iter().any(|(k, t)| k != crate_name && crate::extract::extract(lang, t).map(|x| x.defs.iter().any(|d| d.name() == n)).unwrap_or(false));
+            // a name that is only visible through an import has to be the name of a definition in another generated file
+            if visible.contains(n) && (defined_here.contains(n.as_str()) || other_defines) {
                 continue;
             }
             // without an import mechanism (Swift, Scala, Go, Python) a name of the other crate's file is visible only
             // where the source really refers to the other crate
-            let other_defines = outs.iter().any(|(k, t)| k != crate_name && crate::extract::extract(lang, t).map(|x| x.defs.iter().any(|d| d.name() == n)).unwrap_or(false));
-            if other_defines && link != "independent" && n.contains("Ledger") {
+            if other_defines && link != "independent" && (n.contains("Ledger") || n.ends_with("Token")) {
                 continue;
             }
             acc.vios.add(Violation {
